@@ -69,6 +69,8 @@ type History struct {
 const (
 	BaseName  = "inventory"
 	OtherName = "shop"
+	// MixedName needs name mangling on its way to a file name (configure_todo_list.go).
+	MixedName = "TodoList"
 )
 
 // ResolveCtx is what an option needs to become concrete arguments.
@@ -105,6 +107,7 @@ const (
 var optDefs = []optDef{
 	{"A=other", allApp, nil}, // handled by nameArgs
 	{"A=title", allApp, nil},
+	{"A=mixed", allApp, nil},
 	{"tags", "server client cli support operation", func(c ResolveCtx) []string {
 		if t := pick(Tags(c.Doc), c.Sel); t != "" {
 			return []string{"--tags", t}
@@ -153,6 +156,7 @@ var optDefs = []optDef{
 	{"implementation-package", "server", fixed("--implementation-package", "vfmod/mod/internal/impl")},
 	{"template=stratoscale", "server client support", fixed("--template", "stratoscale")},
 	{"config-file=layout", "server support", func(ResolveCtx) []string { return []string{"-C", filepath.Join(LayoutDir, "server-layout.yml")} }},
+	{"config-file=layout-doc", "server support", func(ResolveCtx) []string { return []string{"-C", filepath.Join(LayoutDir, "server-layout-doc.yml")} }},
 	{"skip-validation", "server client model", fixed("--skip-validation")},
 	{"keep-spec-order", "server model", fixed("--keep-spec-order")},
 	{"default-scheme=https", "server", fixed("--default-scheme", "https")},
@@ -223,9 +227,17 @@ const ServerLayout = `layout:
       file_name: '{{ (snakize (pascalize .Name)) }}.go'
 `
 
+// ServerLayoutDoc is the same layout with the configure file named the way the template
+// documentation spells it (docs/reference/templates/template_layout.md): the rendered name is
+// not in file-name form yet when the application name is not a plain word.
+var ServerLayoutDoc = strings.Replace(ServerLayout, "file_name: 'configure_{{ (snakize (pascalize .Name)) }}.go'", "file_name: 'configure_{{ .Name }}.go'", 1)
+
 // WriteLayouts creates the configuration files under LayoutDir.
 func WriteLayouts() error {
 	if err := os.MkdirAll(LayoutDir, 0o755); err != nil {
+		return err
+	}
+	if err := os.WriteFile(filepath.Join(LayoutDir, "server-layout-doc.yml"), []byte(ServerLayoutDoc), 0o644); err != nil {
 		return err
 	}
 	return os.WriteFile(filepath.Join(LayoutDir, "server-layout.yml"), []byte(ServerLayout), 0o644)
@@ -233,9 +245,9 @@ func WriteLayouts() error {
 
 // exclusive option groups: at most one member per step
 var exclusive = [][]string{
-	{"A=other", "A=title"},
+	{"A=other", "A=title", "A=mixed"},
 	{"flatten=full", "with-expand"},
-	{"implementation-package", "template=stratoscale", "regenerate-configureapi", "config-file=layout"},
+	{"implementation-package", "template=stratoscale", "regenerate-configureapi", "config-file=layout", "config-file=layout-doc"},
 	{"skip-handler", "skip-parameters", "skip-responses"}, // all three together render nothing
 	{"skip-models", "M", "M=unknown"},
 	{"skip-operations", "O", "tags", "tags=unknown"},
@@ -294,6 +306,8 @@ func (s Step) AppName() (string, bool) {
 		return "", false
 	case s.HasOpt("A=other"):
 		return OtherName, true
+	case s.HasOpt("A=mixed"):
+		return MixedName, true
 	}
 	return BaseName, true
 }
@@ -547,6 +561,18 @@ func Catalogue(full bool) []History {
 	add("gen:support/-", "support-first", []Step{gen("support"), user("edit-configure", 0), gen("server"), gen("support")})
 	add("gen:server/implementation-package", "configure-exists", []Step{gen("server"), user("edit-configure", 0), gen("server", "implementation-package"), gen("server")})
 	add("gen:server/config-file=layout", "configure-exists", []Step{gen("server", "config-file=layout"), user("edit-configure", 0), gen("server", "config-file=layout"), specS("gain-op", 0), gen("server", "config-file=layout")})
+	// an application name that is mangled on its way to the file name, with the built-in layout
+	// and with configuration files naming the configure file in both documented spellings
+	for _, lay := range []string{"", "config-file=layout", "config-file=layout-doc"} {
+		opts := []string{"A=mixed"}
+		id := "gen:server/A=mixed"
+		if lay != "" {
+			opts = append(opts, lay)
+			id += "+" + lay
+		}
+		add(id, "configure-exists", []Step{gen("server", opts...), user("edit-configure", 0), gen("server", opts...), specS("gain-op", 0), gen("server", opts...)})
+	}
+	add("gen:support/config-file=layout-doc+A=mixed", "configure-exists", []Step{gen("server", "A=mixed", "config-file=layout-doc"), user("edit-configure", 1), gen("support", "A=mixed", "config-file=layout-doc")})
 	add("gen:support/config-file=layout", "configure-exists", []Step{gen("server", "config-file=layout"), user("edit-configure", 1), gen("support", "config-file=layout")})
 	add("gen:server/template=stratoscale", "configure-exists", []Step{gen("server"), user("edit-configure", 0), gen("server", "template=stratoscale"), gen("server")})
 	return hs
